@@ -291,6 +291,9 @@ def run(tier, seed, rng, known, replay):
                                'found_input': True, 'what': v})
     for v in interrupted_total_probe()[:2]:
         violations.append({'replay': {'property': 'C13', 'kind': 'interrupted-aggregate-probe', 'acceptor': v}, 'found_input': True, 'what': v})
+    from props import surface
+    for v_ in surface.fanout_subobjects()[:2]:
+        violations.append({'replay': {'property': 'C13', 'kind': 'surface-probe', 'probe': 'fanout_subobjects', 'acceptor': v_}, 'found_input': True, 'what': v_})
     v = probe_d11()
     if v:
         k = base.match_known(known, {'cfg': {}}, None, v)
